@@ -43,9 +43,10 @@ Callers: `getProcess` records the returned queue id in `handles`; `build q m` ne
 A handle is never given back, so builds through STALE handles (queue told to stop, closed, exited)
 are part of every schedule.
 
-The abstraction is tied to the Go code only through its two components: `GS.PM` by the
-correspondence stream `peermgr`, the queue behaviour by `GS.MQ` + stream `msgqueue` and the lemmas
-named above; there is no driver for the product itself.
+The abstraction is tied to the Go code through its two components (`GS.PM` by the correspondence
+stream `peermgr`, the queue behaviour by `GS.MQ` + stream `msgqueue` and the lemmas named above) and,
+since AUDIT_4 item 3, directly: driver `GS/Driver/PeerQueues.lean` + stream `pqueues` of C17 run
+`step` against the real PeerMessageManager with real MessageQueue instances (harness/pqueues).
 -/
 namespace GS.PQ
 open GS
